@@ -44,8 +44,33 @@
 #endif
 #define VP_KMAX 3
 
+/* VP_KEYSET > 0: the keys are CONCRETE (the builder output is then concrete
+   and only the operations, the seek target and the values stay symbolic):
+     1: "a" "ab" "abc"     each key extends the previous one (shared 1, 2)
+     2: "aa" "ab" "b"      shared 1, then 0
+     3: "abc" "abd" "abe"  shared 2, 2
+     4: "b" "c" "d"        nothing shared
+   VP_KEYSET == 0: key i has VP_L<i> symbolic bytes. */
+#ifndef VP_KEYSET
+#define VP_KEYSET 0
+#endif
+
+#if VP_KEYSET == 1
+static const size_t vp_len[3] = { 1, 2, 3 };
+static uint8_t vp_kb[3][VP_KMAX] = { { 'a', 0, 0 }, { 'a', 'b', 0 }, { 'a', 'b', 'c' } };
+#elif VP_KEYSET == 2
+static const size_t vp_len[3] = { 2, 2, 1 };
+static uint8_t vp_kb[3][VP_KMAX] = { { 'a', 'a', 0 }, { 'a', 'b', 0 }, { 'b', 0, 0 } };
+#elif VP_KEYSET == 3
+static const size_t vp_len[3] = { 3, 3, 3 };
+static uint8_t vp_kb[3][VP_KMAX] = { { 'a', 'b', 'c' }, { 'a', 'b', 'd' }, { 'a', 'b', 'e' } };
+#elif VP_KEYSET == 4
+static const size_t vp_len[3] = { 1, 1, 1 };
+static uint8_t vp_kb[3][VP_KMAX] = { { 'b', 0, 0 }, { 'c', 0, 0 }, { 'd', 0, 0 } };
+#else
 static const size_t vp_len[3] = { VP_L0, VP_L1, VP_L2 };
 static uint8_t vp_kb[3][VP_KMAX];
+#endif
 static uint8_t vp_vb[3][VP_VL > 0 ? VP_VL : 1];
 
 static ldb_dbopt_t vp_opt; /* zero initialised; only the two fields the builder reads are set */
@@ -120,7 +145,9 @@ harness(void) {
   vp_ref.n = 0;
 
   for (i = 0; i < VP_N; i++) {
+#if VP_KEYSET == 0
     vp_fill(vp_kb[i], VP_KMAX);
+#endif
     vp_fill(vp_vb[i], VP_VL);
     vp_ref_add(&vp_ref, vp_kb[i], vp_len[i], vp_vb[i], VP_VL, 1);
   }
@@ -192,7 +219,7 @@ harness(void) {
     } else {
       VP_WITNESS("ends-invalid");
     }
-#if VP_N >= 2 && VP_L1 >= 2
+#if VP_N >= 2 && VP_L1 >= 2 && VP_KEYSET == 0
     if (vp_kb[0][0] == vp_kb[1][0])
       VP_WITNESS("keys-share-a-prefix");
 #endif
